@@ -317,35 +317,42 @@ def do_event(w, e, o):
 
 
 def drain(w, steps, obs):
-    '''environment goes idle, every background step completes, every poller runs to completion'''
+    '''every background step completes, every poller runs to completion and the environment goes idle -- in the
+    order that is hardest on the waiters: each armed poller looks (weakest condition first) at every level of the
+    environment, and the environment relaxes one bit at a time, the weak conditions (nothing executing, queue
+    empty) before the strong one (no busy worker)'''
     names = {'pipeline': 'CompleteLoad', 'navel_gaze': 'CompleteNavel', 'reload': 'CompleteReload', 'archive': 'CompleteArchive'}
-    for _ in range(60):
+    looked = set()
+    for _ in range(90):
         st = w.snapshot()
         e = None
+        level = (st['st'], st['tr'], st['busy'], st['doing'], st['que'], json.dumps(st['wait'], sort_keys=True))
         if st['st'] == 'starting':
             e = {'ev': 'Boot'}
-        elif st['busy']:
-            e = {'ev': 'Env', 'bit': 'busy'}
-        elif st['doing']:
-            e = {'ev': 'Env', 'bit': 'doing'}
-        elif st['que']:
-            e = {'ev': 'Env', 'bit': 'que'}
         elif w.pending:
             e = {'ev': names[w.pending[0][0]]}
         elif w.process is not None:
             e = {'ev': 'SubmitEnd'}
         else:
-            for k in KS:
+            for k in reversed(KS):
                 p = w.pollers.get(k)
                 if p is not None and p.exited and not p.delivered:
                     e = {'ev': 'PollerDone', 'k': k}
                     break
             if e is None:
-                for k in KS:
+                for k in reversed(KS):
                     p = w.pollers.get(k)
-                    if p is not None and not p.exited and w.slot(k) == 'armed':
+                    if p is not None and not p.exited and w.slot(k) == 'armed' and (k, level) not in looked:
+                        looked.add((k, level))
                         e = {'ev': 'PollerObserve', 'k': k}
                         break
+            if e is None:
+                if st['doing']:
+                    e = {'ev': 'Env', 'bit': 'doing'}
+                elif st['que']:
+                    e = {'ev': 'Env', 'bit': 'que'}
+                elif st['busy']:
+                    e = {'ev': 'Env', 'bit': 'busy'}
         if e is None:
             break
         w.path = [w.fsm.state]
